@@ -511,6 +511,11 @@ def mon_C09(run):
             woken_new = len(parse_list(a_["woken"]) or []) - len(parse_list(b["woken"]) or [])
             if int(a_["permits"]) + woken_new - int(b["permits"]) != 1:
                 bad.append((rows[j]["k"], f"take of object {oid} did not free its slot: permits {b['permits']} -> {a_['permits']}, newly woken {woken_new}"))
+        if int(b["size"]) > int(b["max"]) and b["closed"] == "0":
+            # a surplus object (the pool was shrunk below its size): taking it frees no slot
+            woken_new = len(parse_list(a_["woken"]) or []) - len(parse_list(b["woken"]) or [])
+            if int(a_["permits"]) + woken_new - int(b["permits"]) != 0:
+                bad.append((rows[j]["k"], f"take of surplus object {oid} (size {b['size']} > max_size {b['max']}) released a slot: permits {b['permits']} -> {a_['permits']}, newly woken {woken_new}"))
         if oid in (parse_list(a_["live"]) or []):
             bad.append((rows[j]["k"], f"taken object {oid} still counted as the pool's"))
         if bad:
